@@ -26,6 +26,13 @@ CLAIMS['C20'] = dict(
     design_ref='DESIGN.md 3/C20',
     note='trusted base: clang/LLVM 14 code generation and mem2reg, llvm-nm/objdump, jpir root classifier; assumes re-entrant callbacks; ARMv6-M assembly bodies not analysed; built with clang rather than arm-none-eabi-g++')
 
+CLAIMS['C18'] = dict(
+    technique='static alias-hazard dataflow (read-after-write through an aliased output) over the instantiated AST: byte-range access paths, exact unrolling of constant loops, same-induction-variable rule for run-time loops, memoised inter-procedural pattern queries with constant-argument propagation',
+    category='other',
+    text='Source-level decision for every function x every aliasing pattern its signature admits x every configuration, plus every in-place call site in the library: no read of an aliased input can observe a location already written through the output. Exhaustive over patterns (they do not depend on operand values). Two genuine defects are recorded as known findings (BigInt::shift_right/shift_left in place; C g1_add/g2_add with result==b in portable builds).',
+    design_ref='DESIGN.md 3/C18',
+    note='trusted base: clang 14 front end, jpfacts, the overlap rules of jpv/alias.py; assembly leaves are assumed alias-safe until R-ASM summaries exist; optimiser exploitation of __restrict not modelled')
+
 NA = {
  'C03': 'bit-equality of assembly and C++ back ends over 2^768 inputs is a numerical equivalence: needs execution or a solver (other families); structural asm facts are decided under C17/C18/C20',
  'C13': 'acceptance/rejection is the value of a pairing-product equation; no structural clause beyond the sign/verify delegation decided under C14',
